@@ -193,7 +193,7 @@ def obligation_for(unit, g, d):
     if props is None:
         props = g.fn_props.get(fn, [])
     return 'failure', {
-        'obligation': '%s/%s' % (unit, name), 'unit': unit, 'fn': fn, 'kind': kind, 'props': props,
+        'obligation': ('%s/%s' % (unit, name)).replace(' ', '_'), 'unit': unit, 'fn': fn, 'kind': kind, 'props': props,
         'message': msg, 'rendered': d.get('rendered', ''), 'src': src,
         'gen_line': prim[0]['line_start'],
     }
@@ -260,7 +260,7 @@ def run_unit(unit, repo='/repo', tier='quick', rlimit=30, seed=None, canaries=Tr
                 res.failures.append(o)
     for (fn, name, ok, detail, props, src) in g.syntactic:
         if not ok:
-            res.failures.append({'obligation': '%s/%s/%s' % (unit, fn, name), 'unit': unit, 'fn': fn, 'kind': 'census',
+            res.failures.append({'obligation': ('%s/%s/%s' % (unit, fn, name)).replace(' ', '_'), 'unit': unit, 'fn': fn, 'kind': 'census',
                                  'props': props, 'message': 'syntactic census failed: ' + detail, 'rendered': detail,
                                  'src': src, 'gen_line': 0})
     if rc == 124:
